@@ -54,8 +54,8 @@ def repo_fingerprint():
 def framework_fingerprint():
     files = [p for p in glob.glob(os.path.join(COQ, 'theories', '**', '*.v'), recursive=True)
              if os.sep + 'Gen' + os.sep not in p]
-    files += glob.glob(os.path.join(COQ, 'extract', '*.v'))
-    files += [os.path.join(COQ, '_CoqProject'), os.path.join(VERIF, 'ocaml', 'driver.ml')]
+    files += glob.glob(os.path.join(COQ, 'extract', '*.ext'))
+    files += [os.path.join(COQ, '_CoqProject')] + glob.glob(os.path.join(VERIF, 'ocaml', '*.ml'))
     files += glob.glob(os.path.join(VERIF, 'tools', 'regen', '*.py'))
     return sha_files(files)
 
@@ -88,6 +88,28 @@ def _run(cmd, cwd=None, timeout=1800, env=None):
     p = subprocess.run(cmd, cwd=cwd, env=env, stdout=subprocess.PIPE, stderr=subprocess.STDOUT,
                        timeout=timeout, text=True, errors='replace')
     return p.returncode, p.stdout
+
+
+def write_extract_v():
+    """Assemble ocaml/build/Extract.v from the fragments coq/extract/*.ext.
+    ExtrOcamlBasic only; no Extract Constant / Extract Inductive."""
+    reqs, names = [], []
+    for p in sorted(glob.glob(os.path.join(COQ, 'extract', '*.ext'))):
+        with open(p) as f:
+            for line in f:
+                line = line.strip()
+                if line.startswith('REQUIRE '):
+                    if line[8:] not in reqs:
+                        reqs.append(line[8:])
+                elif line.startswith('NAMES '):
+                    names += [n for n in line[6:].split() if n not in names]
+    out = os.path.join(OCAML_BUILD, 'Extract.v')
+    with open(out, 'w') as f:
+        f.write('(* ASSEMBLED from coq/extract/*.ext -- ExtrOcamlBasic only: bool/option/list/prod/unit/sumbool map to\n'
+                '   OCaml\'s; nat, N, positive, Z stay the extracted inductive types. *)\n'
+                'Require Extraction.\nRequire Import ExtrOcamlBasic.\n' + '\n'.join(reqs) +
+                '\nExtraction Language OCaml.\nExtraction "sqlmodel.ml" ' + ' '.join(names) + '.\n')
+    return out
 
 
 def ensure_built(verbose=True):
@@ -153,16 +175,23 @@ def ensure_built(verbose=True):
         with open(ass_path, 'w') as f:
             json.dump(ass, f)
         b.assumptions = ass
-        # 3. extract + compile the model
+        # 3. extract + compile the model (Extract.v is assembled from coq/extract/*.ext fragments)
         if all(not f.startswith('theories/Inst/Cur') for f in b.failed_vo):
-            rc1, out1 = _run(['timeout', '900', 'coqc', '-R', os.path.join(COQ, 'theories'), 'SqlModel',
-                              os.path.join(COQ, 'extract', 'Extract.v')], cwd=OCAML_BUILD, timeout=1000)
+            ext_v = write_extract_v()
+            rc1, out1 = _run(['timeout', '900', 'coqc', '-R', os.path.join(COQ, 'theories'), 'SqlModel', ext_v],
+                             cwd=OCAML_BUILD, timeout=1000)
             b.log += out1
             if rc1 == 0:
-                subprocess.run(['cp', os.path.join(VERIF, 'ocaml', 'driver.ml'), OCAML_BUILD])
-                rc2, out2 = _run(['ocamlfind', 'ocamlopt', '-w', '-a', '-O2', 'sqlmodel.mli',
-                                  'sqlmodel.ml', 'driver.ml', '-o', 'sqlmodel'], cwd=OCAML_BUILD,
-                                 timeout=900)
+                for old_ml in glob.glob(os.path.join(OCAML_BUILD, 'drv_*.ml')) + glob.glob(os.path.join(OCAML_BUILD, 'zz_*.ml')):
+                    os.remove(old_ml)
+                mls = sorted(glob.glob(os.path.join(VERIF, 'ocaml', '*.ml')))
+                for m in mls:
+                    subprocess.run(['cp', m, OCAML_BUILD])
+                names = [os.path.basename(m) for m in mls]
+                order = ['drv_common.ml'] + [n for n in names if n.startswith('drv_') and n != 'drv_common.ml'] + \
+                        [n for n in names if n.startswith('zz_')]
+                rc2, out2 = _run(['ocamlfind', 'ocamlopt', '-w', '-a', '-O2', 'sqlmodel.mli', 'sqlmodel.ml'] + order +
+                                 ['-o', 'sqlmodel'], cwd=OCAML_BUILD, timeout=900)
                 b.log += out2
                 b.model_ok = (rc2 == 0)
         b.ok = (not b.failed_vo) and b.model_ok and all(v.get('ok') for v in b.regen.values())
@@ -300,7 +329,7 @@ TRUSTED_BASE_COMMON = [
     'translators tools/regen/*.py (fail-closed; regex ASTs via CPython re._parser; character '
     'classes by exhaustive evaluation of CPython re on all 0x110000 code points)',
     'extraction: Require Extraction + ExtrOcamlBasic only, no Extract Constant/Inductive of our own; '
-    'OCaml 4.13.1 ocamlfind ocamlopt; ocaml/driver.ml',
+    'OCaml 4.13.1 ocamlfind ocamlopt; ocaml/drv_*.ml, zz_main.ml (line-oriented driver, plug-in registry)',
     'correspondence harness tools/*.py (differential runs of the extracted model against /repo)',
     'modelled rather than verified: CPython re engine structure semantics (Regex/Re.v), str '
     'methods, hand-modelled loops of sqlparse (tied by stage-wise differential runs)',
